@@ -63,10 +63,12 @@ def safe_float(q):
         return float("inf") if q > 0 else float("-inf")
 
 
-def hdi_finding_key(c):
+def hdi_finding_key(c, shorter_by=None):
     """the bisection stops when the bracket of the lower end point is below atol=1e-10; when the coverage is within
     1e-6 of 1 one end point sits where the density changes by orders of magnitude within 1e-10, and the error of that
     end point is amplified into the other one by the density ratio."""
+    if shorter_by is not None and float(shorter_by) > 1e-7:
+        return None   # the recorded mechanism loses at most ~1e-8; anything larger is a different defect
     return HDI_FINDING if (c < 1.0 and 1.0 - c <= 1e-6) else None
 
 
@@ -443,7 +445,7 @@ def run(seed, tier, replay=None):
             rep.count("hdi_certified_by_proposed_level_set")
             continue
         if witness:
-            key = hdi_finding_key(c)
+            key = hdi_finding_key(c, (y - x) - (y1 - x1))
             violate(rep, what="highest-density interval: an interval of at least the same (exact) mass is shorter by more than 1e-9",
                         input=mt["inp"], observed=dict(x=x, y=y, length=y - x),
                         shorter_interval=dict(u=x1, v=y1, length=y1 - x1, shorter_by=(y - x) - (y1 - x1)),
